@@ -1761,6 +1761,27 @@ where
         }
 
         let packet_id_opt = packet.packet_id();
+
+        // Check receive_maximum before the topic alias table is touched: a refused packet is never
+        // sent, so it must not bind (or refresh) an alias that the receiver will not learn about
+        if packet.qos() == Qos::AtLeastOnce || packet.qos() == Qos::ExactlyOnce {
+            if let Some(max) = self.publish_send_max {
+                if self.publish_send_count >= max {
+                    events.push(GenericEvent::NotifyError(MqttError::ReceiveMaximumExceeded));
+                    if let Some(packet_id) = packet_id_opt {
+                        if self.pid_man.is_used_id(packet_id) {
+                            self.pid_man.release_id(packet_id);
+                            self.store.erase_publish(packet_id);
+                            self.pid_puback.remove(&packet_id);
+                            self.pid_pubrec.remove(&packet_id);
+                            events.push(GenericEvent::NotifyPacketIdReleased(packet_id));
+                        }
+                    }
+                    return events;
+                }
+            }
+        }
+
         let ta_opt = Self::get_topic_alias_from_props(packet.props());
         if packet.topic_name().is_empty() {
             // process manually provided TopicAlias
@@ -1843,23 +1864,10 @@ where
             }
         }
 
-        // Check receive_maximum for sending (QoS 1 and 2 packets)
+        // Count the accepted QoS 1/2 packet against receive_maximum (checked above)
         if packet.qos() == Qos::AtLeastOnce || packet.qos() == Qos::ExactlyOnce {
-            if let Some(max) = self.publish_send_max {
-                if self.publish_send_count >= max {
-                    events.push(GenericEvent::NotifyError(MqttError::ReceiveMaximumExceeded));
-                    if let Some(packet_id) = packet_id_opt {
-                        if self.pid_man.is_used_id(packet_id) {
-                            self.pid_man.release_id(packet_id);
-                            self.store.erase_publish(packet_id);
-                            self.pid_puback.remove(&packet_id);
-                            self.pid_pubrec.remove(&packet_id);
-                            events.push(GenericEvent::NotifyPacketIdReleased(packet_id));
-                        }
-                    }
-                    return events;
-                }
-                self.publish_send_count += 1;
+            if self.publish_send_max.is_some() {
+                self.publish_send_count = self.publish_send_count.saturating_add(1);
             }
         }
 
